@@ -176,6 +176,9 @@ def c11(prog, rep):
     O.rule_m5(prog, rep, C.C11_UNITS)
     from . import hasharr as HA
     HA.rule_i9(prog, rep)
+    from . import bufrules as BW
+    BW.rule_growth_room(prog, rep, C.C11_UNITS)
+    O.rule_m6(prog, rep, C.C11_UNITS)
     rep.explanation = (
         'Structural memory-safety clauses over the 11 anchored units, all CFG paths: M1 every memcpy/strcpy/strncpy whose '
         'operands can share a base object (origins over reaching definitions) must be provably disjoint (affine distance = '
@@ -440,9 +443,12 @@ def c08(prog, rep):
     E.rule_r2_fill(prog, rep, [LT.UNIT])
     from . import dlist as DL
     DL.rule_unlink(prog, rep, LT.UNIT)
+    DL.rule_link(prog, rep, LT.UNIT)
     DL.rule_matcher(prog, rep, LT.UNIT)
     DL.rule_decode_last(prog, rep)
     DL.rule_load_appends(prog, rep)
+    from . import bufrules as BW
+    BW.rule_growth_room(prog, rep, [LT.UNIT])
     rep.explanation = (
         'Structural clauses of the ordered-multimap property in qlisttbl.c: L1 load returns a count incremented in the loading loop '
         'under the put result; L2 the sort exchanges neighbours only for a strictly positive comparison (stability) and exchanges '
@@ -465,6 +471,7 @@ def c09(prog, rep):
     E.rule_r2_fill(prog, rep, [LR.LIST])
     from . import dlist as DL
     DL.rule_unlink(prog, rep, LR.LIST)
+    DL.rule_link(prog, rep, LR.LIST)
     rep.explanation = (
         'E1: through the method table, every queue insert variant (push/pushstr/pushint) resolves to one list end and every '
         'remove/peek variant (pop*/get*) to the opposite end (FIFO); every stack variant to the same end (LIFO); every grow add '
@@ -491,6 +498,14 @@ def c17(prog, rep):
     AR.rule_argv_cells(prog, rep)
     from . import bufrules as BW
     BW.rule_bw1(prog, rep, PARSER_UNITS)
+    from . import own as O
+    O.rule_m6(prog, rep, PARSER_UNITS)
+    from . import configrules as CR
+    clf = CR.find_bool_classifier(prog)
+    rep.rule('CU5', 'the word classifier whose acceptance lets the parser overwrite the word in place ("1"/"0") compares whole words '
+                    '(no prefix match that would accept the empty word)')
+    if clf is not None:
+        CR.rule_whole_word(prog, rep, clf, 'CU5')
     C.rule_m1(prog, rep, ['src/utilities/qencode.c', 'src/extensions/qaconf.c', 'src/extensions/qconfig.c', 'src/internal/qinternal.c'])
     rep.explanation = (
         'CU1: abstract interpretation over each enumerated scan function (URL/Base64/hex decoders, query parser, word splitter, the '
@@ -520,6 +535,7 @@ def c19(prog, rep):
     SR.rule_casemap(prog, rep)
     SR.rule_tailindex(prog, rep)
     SR.rule_bytetable_index(prog, rep, ['src/utilities/qstring.c'], control=['src/utilities/qencode.c'])
+    SR.rule_snprintf_fit(prog, rep, ['src/utilities/qstring.c'])
     rep.explanation = (
         'Q1: for the size-parameterised routines of qstring.c (qstrcpy, qstrncpy, qstrgets - found by their `char *dst, size_t size` '
         'signature) every write into the destination is bounded: block copies and indexed stores need the must-fact len < size '
